@@ -182,5 +182,48 @@ func registry() map[string]PropSpec {
 		},
 		Assumptions: []string{"yaml.Node.Encode/Decode on string scalars modelled (Tag !!str, Value)", "json.Marshal in the abstract JSON data model"},
 	})
+	add(PropSpec{
+		ID: "C18",
+		Harnesses: []HSpec{
+			{Pkg: "jwkutil", Name: "c18_validate", Quick: map[string]int{"alglen": 8}, Unwind: [2]int{24, 24},
+				What: "jwkutil.Validate on an abstract key: symbolic structural validity, algorithm present/absent, algorithm of kind signature / key-encryption / invalid with a symbolic name of <= 8 bytes, symbolic key type of <= 3 bytes: accepted exactly for valid keys with RSA+PS512, EC+ES512 or OKP+EdDSA"},
+			{Pkg: "jwkutil", Name: "c18_loadkey", Quick: map[string]int{"keys": 2}, Thorough: map[string]int{"keys": 3}, Unwind: [2]int{24, 24},
+				What: "LoadKey (file reading and jwk.Parse stubbed to return the abstract set) on key sets of <= keys keys with symbolic ids and a symbolic requested id: requested or only key, refusal of ambiguous, absent and invalid keys"},
+		},
+		Outside: []string{
+			"NewKeyPair (crypto/rand, RSA/EC/Ed25519 generation) and `what one key signs verifies with its public half and no other` (real cryptography): not encodable; not claimed",
+			"jwk.Parse's JSON decoding of key-set files; algorithm names longer than 8 bytes (no registered name of interest is longer: all approved names are <= 5 bytes)",
+		},
+		Assumptions: []string{
+			"jwk.Key / jwk.Set are abstract objects whose Validate, Get(alg), Algorithm, KeyType, KeyID, Len, Key(i), LookupKeyID answer with harness-chosen symbolic attributes (their interfaces cannot be implemented outside jwx); natively the attributes are realised with real jwx keys",
+			"os.Open / io.ReadAll / jwk.Parse stubbed to deliver the abstract key set; allow-list tables read from the package initialiser of the current source",
+		},
+	})
+	add(PropSpec{
+		ID: "C19",
+		Harnesses: []HSpec{
+			{Pkg: "ordered", Name: "c05_obs", Quick: map[string]int{"slots": 3}, Thorough: map[string]int{"slots": 5}, Unwind: [2]int{16, 24},
+				What: "ordered.Map observers (Len, IsZero, Get, Contains, Range, ToMap) leave items, index and their nil-ness untouched on every state incl. tombstones"},
+			{Pkg: "ordered", Name: "c05_equal", Quick: map[string]int{"slots": 3}, Thorough: map[string]int{"slots": 4}, Unwind: [2]int{16, 24},
+				What: "Equal does not write to either argument"},
+			{Pkg: "ordered", Name: "c19_marshal_frame", Quick: map[string]int{"slots": 3}, Thorough: map[string]int{"slots": 4}, Unwind: [2]int{16, 24},
+				What: "MarshalJSON, MarshalYAML and ToMapRecursive do not write to the map (no lazy compaction)"},
+			{Pkg: ".", Name: "c19_obs_plugin", Quick: map[string]int{}, Unwind: [2]int{64, 64},
+				Models: []string{"net/url.Parse=vpModelURLParse", "path.Join=vpModelPathJoin"},
+				What:   "Plugin.FullSource/MarshalJSON/MarshalYAML do not modify the plugin (no memoised canonical source, config untouched)"},
+			{Pkg: ".", Name: "c19_obs_matrix", Quick: map[string]int{}, Unwind: [2]int{64, 64},
+				What: "Matrix.validatePermutation/MarshalJSON/MarshalYAML/IsEmpty do not modify the matrix or the permutation, nor materialise absent fields"},
+			{Pkg: ".", Name: "c19_obs_step", Quick: map[string]int{}, Unwind: [2]int{64, 64},
+				Models: []string{"net/url.Parse=vpModelURLParse", "path.Join=vpModelPathJoin"},
+				What:   "CommandStep.MarshalJSON does not modify the step nor materialise absent fields"},
+		},
+		Extra: extraC19,
+		Outside: []string{
+			"actual goroutine interleavings: schedules are not symbolic variables in this engine; the claim is the absence of writes (no write, no race) for every state within the bounds, plus the absence of stores to package-level state in any function",
+			"races inside third-party libraries (yaml.v3, encoding/json, jwx, regexp - the latter documented safe for concurrent use)",
+			"Sign/Verify not writing the step or the caller's env is decided under C06",
+		},
+		Assumptions: []string{"a data race requires a write; concurrent use of distinct objects shares only package-level state"},
+	})
 	return r
 }
